@@ -30,7 +30,7 @@ THEOREMS = ['C03_unify_gen_restores', 'C03_unify_gen_close_restores', 'C03_unify
             'C03_unify_gen_yields_at_most_once', 'C03_unify_gen_matches_unify', 'C03_frame_next_restores',
             'C03_throw_restores', 'C03_query_restores', 'C03_rerun_same', 'C03_consumer_throw_restores', 'C03_any_consumer_restores',
             'C03_compiled_query_restores', 'C03_bounded_consumer_restores', 'C03_machine_refines_irsem', 'C03_machine_refines_irsem_fuel', 'C03_machine_refines_facts', 'C03_queryF_nofacts',
-            'C03_machine_refines_nquery', 'C03_machine_refines_nquery_fuel', 'C03_world_query_restores', 'C03_pyrows_realizes',
+            'C03_machine_refines_nquery', 'C03_machine_refines_nquery_fuel', 'C03_world_query_restores', 'C03_pyrows_realizes', 'C03_raising_predicate_realized',
             'C03_machine_exception_passthrough', 'C03_machine_refines_nqueryE']
 RULE = ("kind 'gen': non-trivial if the generator bound >= 2 cells or ran under >= 1 stacked unification, and the "
         "operation sequence abandons it at a yield (close/del after a yielding next) or resumes it. "
